@@ -345,8 +345,16 @@ impl<T> Default for Queue<T> {
 impl<T> Drop for Queue<T> {
     fn drop(&mut self) {
         while self.pop().is_some() {}
-        // release the stub
-        let _: Box<Node<T>> = unsafe { Box::from_raw(*self.tail.get()) };
+        // release the list's reference of the stub: it is the stub created by
+        // `new`, or the entry popped last, whose handle may still be alive
+        unsafe {
+            let tail = *self.tail.get();
+            (*tail).refs &= REF_COUNT_MASK;
+            (*tail).refs -= 1;
+            if (*tail).refs == 0 {
+                let _: Box<Node<T>> = Box::from_raw(tail);
+            }
+        }
     }
 }
 
